@@ -407,7 +407,7 @@ fn execute(case: &Case) -> CaseResult {
         res.discard = Some("cli-binary-missing".into());
         return res;
     }
-    let dir = verif_dir().join("work").join(format!("c20-{}-{}", std::process::id(), case.run));
+    let dir = crate::engine::out_dir().join("work").join(format!("c20-{}-{}", std::process::id(), case.run));
     let _ = std::fs::create_dir_all(&dir);
     let r = run(case, &dir, &mut res);
     let _ = std::fs::remove_dir_all(&dir);
